@@ -555,7 +555,7 @@ def streams(ctx):
 
     # 3. generated programs x random compositions (up to 6 rewrites)
     rng = ctx.rng("generated")
-    n = 1500 if ctx.quick else 40000
+    n = 1500 if ctx.quick else 30000
     items = [("gen", rng.randrange(1 << 40), 3 if ctx.quick else 4) for _ in range(n)]
     res = _pool_map(items, procs)
     reqs = [r for lay, lex, st in res for r in lay]
@@ -604,7 +604,7 @@ def streams(ctx):
 
     # 4b. Mode::Interactive on module-like programs (the reference for interactive mode is the module tree)
     rng = ctx.rng("interactive")
-    n = 300 if ctx.quick else 6000
+    n = 300 if ctx.quick else 4000
     items = [("geni", rng.randrange(1 << 40), 3) for _ in range(n)]
     res = _pool_map(items, procs)
     reqs = [r for lay, lex, st in res for r in lay]
@@ -624,7 +624,7 @@ def streams(ctx):
                                                             "test_named_expressions.py", "test_with.py")]
         pool = [f for f in files if os.path.getsize(f) < 40000 and f not in must]
         files = must + rng.sample(pool, 110)
-    items = [("file", f, rng.randrange(1 << 40), 2 if ctx.quick else 6) for f in files]
+    items = [("file", f, rng.randrange(1 << 40), 2 if ctx.quick else 5) for f in files]
     res = _pool_map(items, procs)
     reqs = [r for lay, lex, st in res for r in lay]
     st_f = {}
